@@ -335,6 +335,8 @@ class Builder(object):
                         nfa.eps[cur].add(nfa.locked_final)
                         nfa.add(cur, [10], nfa.locked_final)
                     cur = nfa.new()   # nothing may follow: dead continuation
+                elif an in ('AT_BOUNDARY', 'AT_NON_BOUNDARY') and self.asserts == 'over':
+                    self.used_over = True      # a zero-width condition, taken as true: superset language
                 else:
                     raise Unsupported('anchor %s' % an)
             elif opn in ('ASSERT', 'ASSERT_NOT') and self.asserts == 'over':
